@@ -45,7 +45,7 @@ NPROC = 3
 NTLC = 4
 LINES_PER_FUNC = 40
 LINES_PER_FILE = 400
-SHARD = 40000
+SHARD = 8000
 MAX_CLANG = 80
 MAX_SHRINK = 300
 # deep recursion of the spec's parser/printer needs stack; few GC threads: several TLC processes run side by side
